@@ -1,9 +1,172 @@
-(* C14 - TSIG MACs follow RFC 8945; genuine messages verify, altered ones never do. *)
+(* C14 - TSIG MACs follow RFC 8945; genuine messages verify, altered ones never do.
+
+   Model: coq/Model/TsigM.v (dns/tsig.py, the TSIG rdata codec, the TSIG path of dns/message.py).
+   Specification: coq/Proofs/TsigSpec.v (RFC 8945 4.3 / 5.3.1, written independently).
+   Every theorem is quantified over the keyed hash  H : hashid -> key -> octets -> digest;
+   nothing is assumed about H. *)
 From DV Require Import Base.Prelude.
 From DV Require Model.NameM.
-From DV Require Import Model.TsigM Proofs.TsigLemmas.
+From DV Require Import Model.TsigM Proofs.TsigSpec Proofs.TsigLemmas Proofs.TsigInj.
 Open Scope Z_scope.
 
+(* ---- the octets fed to the MAC are the RFC 8945 input ---- *)
+
+(* request (request_mac empty), response / first envelope bound to a request MAC *)
+Theorem digest_is_rfc :
+  forall wire k rd time rmac ctx multi c,
+    (ctx = None \/ multi = false) ->
+    digest wire k rd time rmac ctx multi = Ok c ->
+    c_data c = rfc8945_input (omac rmac) (t_oid rd) wire (vars_of k rd (time_of rd time))
+    /\ c_key c = ksecret k
+    /\ assoc_name hashes (kalg k) = Some (c_hash c, c_size c).
+Proof. exact digest_first_is_rfc. Qed.
+Print Assumptions digest_is_rfc.
+
+(* subsequent envelope of a multi-message exchange: running context ++ message ++ timers *)
+Theorem digest_is_rfc_subsequent :
+  forall wire k rd time rmac c0 c,
+    digest wire k rd time rmac (Some c0) true = Ok c ->
+    c_data c = c_data c0 ++ rfc_dns_message (t_oid rd) wire
+               ++ rfc_tsig_timers (time_of rd time) (t_fudge rd)
+    /\ c_key c = c_key c0 /\ c_hash c = c_hash c0 /\ c_size c = c_size c0.
+Proof. exact digest_subsequent_is_rfc. Qed.
+Print Assumptions digest_is_rfc_subsequent.
+
+(* the MAC sign() puts into the record *)
+Theorem sign_mac_is_rfc8945 :
+  forall H wire k rd t rmac ctx multi rd' c',
+    (ctx = None \/ multi = false) ->
+    sign H wire k rd (Some t) rmac ctx multi = Ok (rd', c') ->
+    exists h sz,
+      assoc_name hashes (kalg k) = Some (h, sz)
+      /\ t_mac rd' = rfc_truncate (trunc_of sz)
+           (H h (ksecret k) (rfc8945_input (omac rmac) (t_oid rd) wire (vars_of k rd t)))
+      /\ t_time rd' = t /\ t_alg rd' = t_alg rd /\ t_fudge rd' = t_fudge rd
+      /\ t_oid rd' = t_oid rd /\ t_error rd' = t_error rd /\ t_other rd' = t_other rd.
+Proof. exact sign_mac_is_rfc. Qed.
+Print Assumptions sign_mac_is_rfc8945.
+
+(* ... and for a subsequent envelope, with the context handed to the next one *)
+Theorem sign_mac_is_rfc8945_subsequent :
+  forall H wire k rd t rmac c0 rd' c',
+    sign H wire k rd (Some t) rmac (Some c0) true = Ok (rd', c') ->
+    t_mac rd' = rfc_truncate (trunc_of (c_size c0))
+        (H (c_hash c0) (c_key c0)
+           (c_data c0 ++ rfc_dns_message (t_oid rd) wire ++ rfc_tsig_timers t (t_fudge rd)))
+    /\ exists c1, c' = Some c1 /\ c_data c1 = rfc_request_mac (t_mac rd') /\ c_key c1 = ksecret k
+                  /\ assoc_name hashes (kalg k) = Some (c_hash c1, c_size c1).
+Proof. exact sign_mac_subsequent. Qed.
+Print Assumptions sign_mac_is_rfc8945_subsequent.
+
+(* ---- genuine messages verify ---- *)
+Theorem sign_then_validate :
+  forall H wire k rd t rmac ctx multi rd' c' wire' start adcount now,
+    sign H wire k rd (Some t) rmac ctx multi = Ok (rd', c') ->
+    get_adcount wire' = Ok adcount -> adcount <> 0 ->
+    strip_tsig wire' adcount start = wire ->
+    t_error rd = 0 ->
+    NameM.name_eqb (kalg k) (t_alg rd) = true ->
+    rfc_time_ok now t (t_fudge rd) ->
+    validate H wire' k (kname k) rd' now rmac start ctx multi = Ok c'.
+Proof. exact sign_then_validate_lemma. Qed.
+Print Assumptions sign_then_validate.
+
+(* ---- what validate accepts ---- *)
+Theorem validate_accepts_iff :
+  forall H wire k owner rd now rmac start ctx multi r,
+    validate H wire k owner rd now rmac start ctx multi = Ok r <->
+    exists adcount c,
+      pre_ok wire k owner rd now adcount
+      /\ digest (strip_tsig wire adcount start) k rd None rmac ctx multi = Ok c
+      /\ t_mac rd = ctx_sign H c
+      /\ maybe_start_digest k (t_mac rd) multi = Ok r.
+Proof. exact validate_accepts_iff_lemma. Qed.
+Print Assumptions validate_accepts_iff.
+
+Theorem validate_accepts_only_rfc_mac :
+  forall H wire k owner rd now rmac start ctx multi r,
+    (ctx = None \/ multi = false) ->
+    all_bytes wire = true ->
+    validate H wire k owner rd now rmac start ctx multi = Ok r ->
+    exists adcount h sz,
+      pre_ok wire k owner rd now adcount
+      /\ assoc_name hashes (kalg k) = Some (h, sz)
+      /\ t_mac rd = rfc_truncate (trunc_of sz)
+           (H h (ksecret k)
+              (rfc8945_input (omac rmac) (t_oid rd) (rfc_received_message wire adcount start)
+                 (vars_of k rd (t_time rd)))).
+Proof. exact validate_accepts_mac_is_rfc. Qed.
+Print Assumptions validate_accepts_only_rfc_mac.
+
+Theorem validate_accepts_only_rfc_mac_subsequent :
+  forall H wire k owner rd now rmac start c0 r,
+    all_bytes wire = true ->
+    validate H wire k owner rd now rmac start (Some c0) true = Ok r ->
+    exists adcount,
+      pre_ok wire k owner rd now adcount
+      /\ t_mac rd = rfc_truncate (trunc_of (c_size c0))
+           (H (c_hash c0) (c_key c0)
+              (c_data c0 ++ rfc_dns_message (t_oid rd) (rfc_received_message wire adcount start)
+                 ++ rfc_tsig_timers (t_time rd) (t_fudge rd)))
+      /\ exists c1, r = Some c1 /\ c_data c1 = rfc_request_mac (t_mac rd) /\ c_key c1 = ksecret k
+                    /\ assoc_name hashes (kalg k) = Some (c_hash c1, c_size c1).
+Proof. exact validate_accepts_mac_subsequent. Qed.
+Print Assumptions validate_accepts_only_rfc_mac_subsequent.
+
+(* ---- altered messages: the input construction is injective ---- *)
+Theorem input_injective_same_shape :
+  forall rm oid1 oid2 w1 w2 v1 v2,
+    canonical_name (v_name v1) = canonical_name (v_name v2) ->
+    canonical_name (v_alg v1) = canonical_name (v_alg v2) ->
+    (length (skipn 2 w1) = length (skipn 2 w2) \/ length (v_other v1) = length (v_other v2)) ->
+    vars_wf oid1 v1 -> vars_wf oid2 v2 ->
+    rfc8945_input rm oid1 w1 v1 = rfc8945_input rm oid2 w2 v2 ->
+    oid1 = oid2 /\ skipn 2 w1 = skipn 2 w2 /\ v_time v1 = v_time v2 /\ v_fudge v1 = v_fudge v2
+    /\ v_error v1 = v_error v2 /\ v_other v1 = v_other v2.
+Proof. exact rfc_input_injective. Qed.
+Print Assumptions input_injective_same_shape.
+
+Theorem tamper_needs_collision :
+  forall H k rmac ctx multi wire1 owner1 rd1 now1 start1 r1 wire2 owner2 rd2 now2 start2 r2,
+    (ctx = None \/ multi = false) ->
+    all_bytes wire1 = true -> all_bytes wire2 = true ->
+    tsig_wf rd1 -> tsig_wf rd2 ->
+    validate H wire1 k owner1 rd1 now1 rmac start1 ctx multi = Ok r1 ->
+    validate H wire2 k owner2 rd2 now2 rmac start2 ctx multi = Ok r2 ->
+    t_mac rd1 = t_mac rd2 ->
+    exists ad1 ad2 h sz,
+      get_adcount wire1 = Ok ad1 /\ get_adcount wire2 = Ok ad2 /\
+      assoc_name hashes (kalg k) = Some (h, sz) /\
+      let d1 := rfc8945_input (omac rmac) (t_oid rd1) (rfc_received_message wire1 ad1 start1) (vars_of k rd1 (t_time rd1)) in
+      let d2 := rfc8945_input (omac rmac) (t_oid rd2) (rfc_received_message wire2 ad2 start2) (vars_of k rd2 (t_time rd2)) in
+      ((length (skipn 2 (rfc_received_message wire1 ad1 start1)) = length (skipn 2 (rfc_received_message wire2 ad2 start2))
+        \/ length (t_other rd1) = length (t_other rd2)) ->
+       authenticated wire1 ad1 start1 rd1 = authenticated wire2 ad2 start2 rd2
+       \/ (d1 <> d2 /\
+           rfc_truncate (trunc_of sz) (H h (ksecret k) d1) = rfc_truncate (trunc_of sz) (H h (ksecret k) d2))).
+Proof. exact tamper_needs_collision_lemma. Qed.
+Print Assumptions tamper_needs_collision.
+
+Theorem wrong_request_mac :
+  forall H wire k rd t rmac1 rmac2 ctx multi rd' c' wire' start adcount now owner r,
+    (ctx = None \/ multi = false) ->
+    all_bytes wire' = true ->
+    zlen rmac1 < 65536 -> zlen rmac2 < 65536 ->
+    sign H wire k rd (Some t) rmac1 ctx multi = Ok (rd', c') ->
+    get_adcount wire' = Ok adcount ->
+    rfc_received_message wire' adcount start = wire ->
+    rmac1 <> rmac2 ->
+    validate H wire' k owner rd' now rmac2 start ctx multi = Ok r ->
+    exists h sz,
+      assoc_name hashes (kalg k) = Some (h, sz) /\
+      let d1 := rfc8945_input (omac rmac1) (t_oid rd) wire (vars_of k rd t) in
+      let d2 := rfc8945_input (omac rmac2) (t_oid rd) wire (vars_of k rd t) in
+      d1 <> d2 /\
+      rfc_truncate (trunc_of sz) (H h (ksecret k) d1) = rfc_truncate (trunc_of sz) (H h (ksecret k) d2).
+Proof. exact wrong_request_mac_lemma. Qed.
+Print Assumptions wrong_request_mac.
+
+(* ---- the checks that do not involve the MAC, in the order validate makes them ---- *)
 Theorem peer_error :
   forall H wire k owner rd now rmac start ctx multi adcount,
     get_adcount wire = Ok adcount -> adcount <> 0 ->
@@ -11,3 +174,70 @@ Theorem peer_error :
     validate H wire k owner rd now rmac start ctx multi = Lib (TsigM.peer_error (t_error rd)).
 Proof. exact peer_error_lemma. Qed.
 Print Assumptions peer_error.
+
+Theorem bad_time :
+  forall H wire k owner rd now rmac start ctx multi adcount,
+    get_adcount wire = Ok adcount -> adcount <> 0 -> t_error rd = 0 ->
+    ~ rfc_time_ok now (t_time rd) (t_fudge rd) ->
+    validate H wire k owner rd now rmac start ctx multi = Lib eBadTime.
+Proof. exact bad_time_lemma. Qed.
+Print Assumptions bad_time.
+
+Theorem bad_key :
+  forall H wire k owner rd now rmac start ctx multi adcount,
+    get_adcount wire = Ok adcount -> adcount <> 0 -> t_error rd = 0 ->
+    rfc_time_ok now (t_time rd) (t_fudge rd) ->
+    NameM.name_eqb (kname k) owner = false ->
+    validate H wire k owner rd now rmac start ctx multi = Lib eBadKey.
+Proof. exact bad_key_lemma. Qed.
+Print Assumptions bad_key.
+
+Theorem bad_alg :
+  forall H wire k owner rd now rmac start ctx multi adcount,
+    get_adcount wire = Ok adcount -> adcount <> 0 -> t_error rd = 0 ->
+    rfc_time_ok now (t_time rd) (t_fudge rd) ->
+    NameM.name_eqb (kname k) owner = true ->
+    NameM.name_eqb (kalg k) (t_alg rd) = false ->
+    validate H wire k owner rd now rmac start ctx multi = Lib eBadAlgorithm.
+Proof. exact bad_alg_lemma. Qed.
+Print Assumptions bad_alg.
+
+(* ---- non-vacuity: a toy keyed hash, a 12-octet message, key "k." / hmac-sha256-128 ---- *)
+Definition exH (h : hashid) (k d : bytes) : bytes :=
+  map (fun i => (fold_left Z.add (k ++ d) i * i) mod 256) [1; 2; 3; 4; 5; 6; 7; 8; 9; 10; 11; 12; 13; 14; 15; 16; 17; 18; 19; 20].
+Definition exwire : bytes := [18; 52; 1; 0; 0; 0; 0; 0; 0; 0; 0; 0].
+Definition exkey : key := {| kname := [[107]; []]; ksecret := [1; 2; 3; 4; 5; 6; 7; 8; 9; 10; 11; 12; 13; 14; 15; 16; 17]; kalg := nHMAC_SHA256_128 |}.
+Definition exrd : tsig := {| t_alg := nHMAC_SHA256_128; t_time := 0; t_fudge := 300; t_mac := [];
+                             t_oid := 4660; t_error := 0; t_other := [] |}.
+
+Example ex_sign_ok :
+  exists rd', sign exH exwire exkey exrd (Some 1000) [9; 9] None false = Ok (rd', None)
+              /\ length (t_mac rd') = 16%nat.
+Proof. eexists. split; vm_compute; reflexivity. Qed.
+
+Example ex_validate_ok :
+  exists rd' w, sign_message exH exwire exkey (kname exkey) exrd 1000 [9; 9] None false = Ok (w, rd', None)
+    /\ all_bytes w = true /\ tsig_wf rd'
+    /\ validate exH w exkey (kname exkey) rd' 1300 [9; 9] 12 None false = Ok None
+    /\ validate exH w exkey (kname exkey) rd' 1301 [9; 9] 12 None false = Lib eBadTime
+    /\ validate exH w exkey (kname exkey) rd' 1000 [9; 8] 12 None false = Lib eBadSignature
+    /\ read exH w (KR_Key exkey) [9; 9] None false 1000
+       = Ok {| m_had_tsig := true; m_tsig := Some (kname exkey, rd'); m_ctx := None;
+               m_recs := [(3, 250, 255, 12%nat)] |}.
+Proof.
+  eexists. eexists. split; [vm_compute; reflexivity|].
+  split; [vm_compute; reflexivity|].
+  split; [unfold tsig_wf, zlen; cbn; lia|].
+  repeat split; vm_compute; reflexivity.
+Qed.
+
+Example ex_multi_ok :
+  exists rd' c1, sign exH exwire exkey exrd (Some 1000) [9; 9] None true = Ok (rd', Some c1)
+    /\ c_data c1 = rfc_request_mac (t_mac rd')
+    /\ exists rd'' c2, sign exH exwire exkey exrd (Some 1001) [9; 9] (Some (update c1 exwire)) true = Ok (rd'', Some c2)
+         /\ t_mac rd'' = firstn 16 (exH SHA256 (ksecret exkey)
+              (rfc8945_input_subsequent (t_mac rd') [exwire] 4660 exwire 1001 300)).
+Proof.
+  eexists. eexists. split; [vm_compute; reflexivity|]. split; [vm_compute; reflexivity|].
+  eexists. eexists. split; vm_compute; reflexivity.
+Qed.
